@@ -271,7 +271,50 @@ def build_entries():
     def _(a):
         return hgrid.slope(mkgrid(a["fd"], "int64"), mkgrid(a["alt"], "float64"), a.get("nprint", 100))
 
-    return E, loaded
+    return E, loaded, (cd, cs, cg)
+
+
+def install_shims(mods, record):
+    """replace every function of the three extension modules by a recorder that notes, BEFORE the call, the
+    name, the integer scalars and — per array argument — dtype, shape and content (the kernel-call arguments
+    as they cross the Cython boundary), then calls the original"""
+    import numpy as np
+
+    def enc_arr(a):
+        if a.dtype.kind == "f":
+            v = [("nan" if x != x else "inf" if x == np.inf else "-inf" if x == -np.inf else float(x))
+                 for x in a.ravel().tolist()]
+        else:
+            v = [int(x) for x in a.ravel().tolist()]
+        return {"d": a.dtype.str, "shape": list(a.shape), "v": v, "c": bool(a.flags["C_CONTIGUOUS"])}
+
+    def enc(x):
+        if isinstance(x, np.ndarray):
+            return enc_arr(x)
+        if isinstance(x, (bool, np.bool_)):
+            return int(x)
+        if isinstance(x, (int, np.integer)):
+            return int(x)
+        if isinstance(x, (float, np.floating)):
+            x = float(x)
+            return "nan" if x != x else "inf" if x == float("inf") else "-inf" if x == float("-inf") else x
+        return repr(x)[:40]
+
+    for mod in mods:
+        for name in dir(mod):
+            f = getattr(mod, name)
+            if name.startswith("_") or not callable(f) or isinstance(f, type):
+                continue
+
+            def make(f=f, name=name, modname=mod.__name__):
+                def shim(*args):
+                    try:
+                        record({"mod": modname, "fn": name, "args": [enc(a) for a in args]})
+                    except Exception as e:      # noqa: recording must never change the behaviour
+                        record({"mod": modname, "fn": name, "args": None, "err": repr(e)[:80]})
+                    return f(*args)
+                return shim
+            setattr(mod, name, make())
 
 
 # --------------------------------------------------------------------------------------------
@@ -281,7 +324,8 @@ CT = {"int": ctypes.c_int, "ll": ctypes.c_longlong, "double": ctypes.c_double}
 
 class Kern:
     def __init__(self, native):
-        self.lib = ctypes.CDLL(os.path.join(native, "libhykern.so"))
+        self.native = native
+        self.libs = {}
         self.libc = ctypes.CDLL(None)
         self.libc.malloc.restype = ctypes.c_void_p
         self.libc.malloc.argtypes = [ctypes.c_size_t]
@@ -289,7 +333,10 @@ class Kern:
 
     def run(self, p):
         """args: {"t": "int"|"ll"|"double", "v": scalar}  or  {"buf": name, "t": ctype, "ext": n, "v": [...]}"""
-        fn = getattr(self.lib, p["fn"])
+        path = p.get("lib") or os.path.join(self.native, "libhykern.so")
+        if path not in self.libs:
+            self.libs[path] = ctypes.CDLL(path)
+        fn = getattr(self.libs[path], p["fn"])
         fn.restype = CT[p.get("ret", "int")]
         cargs, ctys, regions, held = [], [], [], []
         for a in p["args"]:
@@ -391,11 +438,11 @@ def main():
 
     def say(line):
         st.write(line + "\n")
-        st.flush()
-        os.fsync(st.fileno())
+        st.flush()          # into the OS: survives the death of this process
 
     say(f"P {os.getpid()}")
     entries, loaded, kern = None, {}, None
+    cur = [start]
     pos = 0
     for i in range(start, len(probes)):
         p = probes[i]
@@ -405,8 +452,10 @@ def main():
         try:
             if p["kind"] == "api":
                 if entries is None:
-                    entries, loaded = build_entries()
+                    entries, loaded, mods = build_entries()
                     say("L " + json.dumps(loaded))
+                    install_shims(mods, lambda rec: say(f"C {cur[0]} " + json.dumps(rec)))
+                cur[0] = i
                 r = entries[p["entry"]](p["a"])
                 out["ret"] = "ok"
                 out["val"] = brief(r)
